@@ -331,10 +331,22 @@ FS = {}   # virtual file system of the current path: name -> list of bytes (symb
 
 @model('vrt_fs_write')
 def vrt_fs_write(I, args, callee):
-    """vrt_fs_write(name, bytes) -> path string; E2 keeps the content in a per-path dictionary"""
+    """vrt_fs_write(name, bytes) -> name; E2 keeps the content in a per-path dictionary (root = current directory)"""
     name = bytes(concrete_bytes(items_of(args[0])) or b'').decode()
-    FS[name] = list(items_of(args[1]))
+    FS[_fs_norm(name)] = list(items_of(args[1]))
     return StringV(list(name.encode()))
+
+
+def _fs_norm(name):
+    parts = []
+    for c in name.split('/'):
+        if c in ('', '.'):
+            continue
+        if c == '..' and parts:
+            parts.pop()
+            continue
+        parts.append(c)
+    return ('/' if name.startswith('/') else '') + '/'.join(parts)
 
 
 def _fs_name(v):
@@ -348,9 +360,9 @@ def _fs_name(v):
 def file_open(I, args, callee):
     """environment model: only files written by vrt_fs_write exist"""
     name = _fs_name(args[0])
-    if name is None or name not in FS:
+    if name is None or _fs_norm(name) not in FS:
         return err(Opaque('io::Error'))
-    return ok(Opaque('File', name))
+    return ok(Opaque('File', _fs_norm(name)))
 
 
 @override('loader::read_data', 'read_data')
@@ -359,9 +371,73 @@ def stub_read_data(I, args, callee):
     return ok(VecV(list(FS[f.data])))
 
 
-@override('loader::make_include_filename', 'make_include_filename')
-def stub_make_include_filename(I, args, callee):
-    return StringV(list(items_of(args[0])))
+# std::path on concrete strings (paths of the virtual file system are concrete in every harness)
+
+def _path_str(v):
+    n = _fs_name(v)
+    if n is None:
+        raise Unmodelled('symbolic path')
+    return n
+
+
+@model('Path::is_absolute', 'Path::has_root')
+def path_is_absolute(I, args, callee):
+    return _path_str(args[0]).startswith('/')
+
+
+@model('Path::is_relative')
+def path_is_relative(I, args, callee):
+    return not _path_str(args[0]).startswith('/')
+
+
+@model('Path::parent')
+def path_parent(I, args, callee):
+    p = _path_str(args[0])
+    root = p.startswith('/')
+    comps = [c for c in p.split('/') if c not in ('', '.')] if p else []
+    if not comps:
+        return none()
+    par = '/'.join(comps[:-1])
+    if root:
+        par = '/' + par
+    elif p.startswith('./') and not par:
+        par = '.'
+    return some(StringV(list(par.encode())))
+
+
+@model('Path::join', 'PathBuf::join')
+def path_join(I, args, callee):
+    a, b = _path_str(args[0]), _path_str(args[1])
+    if b.startswith('/') or not a:
+        r = b
+    elif a.endswith('/'):
+        r = a + b
+    else:
+        r = a + '/' + b
+    return StringV(list(r.encode()))
+
+
+@model('Path::exists', 'Path::is_file', 'Path::try_exists')
+def path_exists(I, args, callee):
+    n = _fs_norm(_path_str(args[0]))
+    hit = n in FS or ('is_file' not in callee and (n == '' or any(k.startswith(n + '/') for k in FS)))
+    if 'try_exists' in callee:
+        return ok(hit)
+    return hit
+
+
+@model('Path::file_name', 'Path::extension')
+def path_file_name(I, args, callee):
+    p = _path_str(args[0])
+    comps = [c for c in p.split('/') if c not in ('', '.')]
+    if not comps:
+        return none()
+    last = comps[-1]
+    if 'extension' in callee:
+        if '.' not in last.lstrip('.'):
+            return none()
+        last = last.rsplit('.', 1)[1]
+    return some(StringV(list(last.encode())))
 
 
 def load_all():
